@@ -101,13 +101,17 @@ def correspond(ck, cases, chunk=200):
             ck.disagreement(f"model and implementation differ on {what}", c)
 
 
-# the witnesses of the _refuted theorems (Proofs/C17Witness.v) as they must
-# come out of the implementation
+# the witness inputs of Proofs/C17Witness.v as they must come out of the
+# implementation: base_order / miller_sym are the witnesses of the remaining
+# _refuted theorems (idx in key order; orbit-key order); the idx of base_zero,
+# the inv of base_order, the idx of miller_sym and the arity on an empty
+# Rotation are the values AFTER the repairs (Examples C17_base_repaired_examples,
+# C17_miller_sym_index_example, Theorem C17_rotation_arity)
 WITNESS = {
-    "base_order": {"out": [[3.0, 0.0, 0.0], [1.0, 0.0, 0.0], [2.0, 0.0, 0.0]], "idx": [1, 3, 0], "inv": [2, 0, 2, 1]},
-    "base_zero": {"out": [[5.0, 0.0, 0.0]], "idx": [0], "inv": [0]},
-    "miller_sym": {"out": [[0.0, 0.0, 1.0], [0.0, 1.0, 0.0], [1.0, 0.0, 0.0]], "idx": [0, 1, 3]},
-    "rot_empty_arity": {"Rotation": 1},
+    "base_order": {"out": [[3.0, 0.0, 0.0], [1.0, 0.0, 0.0], [2.0, 0.0, 0.0]], "idx": [1, 3, 0], "inv": [0, 1, 0, 2]},
+    "base_zero": {"out": [[5.0, 0.0, 0.0]], "idx": [1], "inv": [0]},
+    "miller_sym": {"out": [[0.0, 0.0, 1.0], [0.0, 1.0, 0.0], [1.0, 0.0, 0.0]], "idx": [3, 1, 0]},
+    "rot_empty_arity": {"Rotation": 3},
 }
 
 
@@ -146,7 +150,7 @@ def run(tier, seed):
     # smallest failing input of each signature first (it becomes the replay file)
     for f in sorted(out["fails"], key=lambda f: len(json.dumps(f["replay"]))):
         ck.failure(f["sig"], f["what"], f["replay"])
-    # replay of the _refuted witnesses on the implementation
+    # replay of the Coq witnesses / examples on the implementation
     rep = []
     for k, want in WITNESS.items():
         got = out["witness"].get(k)
@@ -154,7 +158,8 @@ def run(tier, seed):
             rep.append(k)
     ck.cov["refuted_witnesses_reproduce"] = not rep
     if rep:
-        ck.notes.append("finding no longer reproduces for witness(es): " + ", ".join(rep))
+        ck.notes.append("implementation no longer returns the values of the Coq witness(es)/example(s): "
+                        + ", ".join(rep))
         ck.cov["refuted_witnesses_not_reproduced"] = rep
     ck.cov["partial_or_refuted"] = [t for t in ck.obligations if t.endswith(("_refuted", "_partial"))]
     ck.cov["rule"] = ("collections of 1..24 elements in 1-3 dimensional shapes; elements drawn from exact "
